@@ -97,8 +97,10 @@ def num_write(ctx):
     n = 0
     for idx in (0x1600, 0x1A01):
         for valid in (0, 1):
-            for cnt in range(0, 11):
-                for bits in (8, 16, 32, 64):
+            # counts up to the largest a dictionary can hold, and sub-byte mapping entries (1 / 4 bit): with those the byte total
+            # never exceeds 8, so only the count limit stands between a 12-entry mapping and Map[8] / Size[8]
+            for cnt in list(range(0, 11)) + [12, 64, 255]:
+                for bits in (1, 4, 8, 16, 32, 64):
                     cob = 0x181 if valid else (OFF | 0x181)
                     trs = _run(m, f, {'obj->Key': (idx << 16), '*buffer': cnt, 'size': 1,
                                       'out:CODictRdLong#0:2': cob, 'out:CODictRdLong:2': 0x21000000 | bits,
